@@ -64,10 +64,29 @@ def predicted_execs(world, ops):
                         cmd = argv[argv.index(flag) + 1]
             if cmd in ('list', 'dump'):
                 continue
+            under = [(dtid, dt) for rel, lst in sorted(by_mod.items())
+                     if rel == target or rel.startswith(target.rstrip('/') + '/') for dtid, dt in lst]
+            # the fallback: nothing documented matches the command -> functions callable without arguments
+            zero = not any((cmd == 'all' and not dt.get('disabled')) or
+                           cmd in (dtid.split('::')[1], dtid.split('::')[1].rsplit(':', 1)[0])
+                           for dtid, dt in under if not dt.get('zero_arg'))
+            if zero and cmd in ('zero-all', 'zero', 'zero_all', 'zero-args'):
+                # (every generated module also has one helper that takes no arguments)
+                for mod in world['modules']:
+                    rel = mod['relpath']
+                    if rel == target or rel.startswith(target.rstrip('/') + '/'):
+                        dtid = '%s::simshadow:0' % mod['name']
+                        k = counts.get(dtid, 0)
+                        counts[dtid] = k + 1
+                        out.append((dtid, k, idx))
             for rel, lst in sorted(by_mod.items()):
                 if rel == target or rel.startswith(target.rstrip('/') + '/'):
                     for dtid, dt in lst:
-                        if cmd == 'all':
+                        if dt.get('zero_arg'):
+                            if not zero or not (cmd in ('zero-all', 'zero', 'zero_all', 'zero-args') or
+                                                cmd in (dtid.split('::')[1], dtid.split('::')[1].rsplit(':', 1)[0])):
+                                continue
+                        elif cmd == 'all':
                             if dt.get('disabled'):
                                 continue
                         else:
